@@ -290,6 +290,14 @@ Definition run_period (k : pkind) (on_first on_eop on_last : bool) (dates : list
     let other := if on_eop then nth (S i) dates 0%Z else nth (i - 1) dates 0%Z in
     compare_dates k (nth i dates 0%Z) other.
 
+(* RunPeriod.__call__ as a function of the timestamp target.now: "if now not in target.data.index: return False;
+   index = target.data.index.get_loc(target.now)" *)
+Definition run_period_at (k : pkind) (on_first on_eop on_last : bool) (dates : list Z) (now : Z) : bool :=
+  match index_of now dates with
+  | None => false
+  | Some i => run_period k on_first on_eop on_last dates i
+  end.
+
 (* ------------------------------------------------------------------ *)
 (* the interpreter                                                      *)
 (* ------------------------------------------------------------------ *)
